@@ -21,6 +21,7 @@ type SolveResult struct {
 	Model   string
 	Raw     map[string]string
 	Second  string // confirming solver (thorough tier)
+	Candidate bool // model comes from the quantifier-free relaxation
 }
 
 type solverSpec struct {
@@ -28,22 +29,38 @@ type solverSpec struct {
 	args func(file string, timeout time.Duration) []string
 }
 
+func z3cfg(bin string, opts ...string) func(f string, t time.Duration) []string {
+	return func(f string, t time.Duration) []string {
+		a := []string{bin, fmt.Sprintf("-T:%d", int(t.Seconds()+0.999))}
+		a = append(a, opts...)
+		return append(a, f)
+	}
+}
+
+// The portfolio: quantifier instantiation is sensitive to search order, so
+// several configurations of z3 5.1.0 are raced besides z3 4.8.12 and cvc5.
 var solvers = []solverSpec{
-	{"z3-new", func(f string, t time.Duration) []string {
-		return []string{"z3-new", fmt.Sprintf("-T:%d", int(t.Seconds()+0.999)), f}
-	}},
-	{"z3", func(f string, t time.Duration) []string {
-		return []string{"z3", fmt.Sprintf("-T:%d", int(t.Seconds()+0.999)), f}
-	}},
+	{"z3-new", z3cfg("z3-new")},
+	{"z3", z3cfg("z3")},
 	{"cvc5", func(f string, t time.Duration) []string {
 		return []string{"cvc5", fmt.Sprintf("--tlimit=%d", t.Milliseconds()), f}
 	}},
+	{"z3-new/relevancy0", z3cfg("z3-new", "smt.relevancy=0")},
+	{"z3-new/seed3", z3cfg("z3-new", "smt.random_seed=3")},
 }
+
+// procSem bounds the number of concurrently running solver processes.
+var procSem = make(chan struct{}, 16)
 
 func runSolver(ctx context.Context, s solverSpec, file string, timeout time.Duration) (status, out string, secs float64) {
 	a := s.args(file, timeout)
 	cctx, cancel := context.WithTimeout(ctx, timeout+2*time.Second)
 	defer cancel()
+	procSem <- struct{}{}
+	defer func() { <-procSem }()
+	if ctx.Err() != nil {
+		return "unknown", "cancelled", 0
+	}
 	cmd := exec.CommandContext(cctx, a[0], a[1:]...)
 	var buf bytes.Buffer
 	cmd.Stdout = &buf
@@ -63,7 +80,7 @@ func runSolver(ctx context.Context, s solverSpec, file string, timeout time.Dura
 // solve runs the portfolio on one query file.
 func solve(file string, timeout time.Duration, confirm bool) SolveResult {
 	res := SolveResult{Status: "unknown", Raw: map[string]string{}}
-	quick := 4 * time.Second
+	quick := 2 * time.Second
 	if timeout < quick {
 		quick = timeout
 	}
@@ -109,7 +126,7 @@ func solve(file string, timeout time.Duration, confirm bool) SolveResult {
 	}
 	if confirm && res.Status == "unsat" {
 		for _, s := range solvers {
-			if s.name == res.Solver {
+			if strings.SplitN(s.name, "/", 2)[0] == strings.SplitN(res.Solver, "/", 2)[0] {
 				continue
 			}
 			st2, _, _ := runSolver(context.Background(), s, file, timeout)
@@ -146,6 +163,13 @@ func discharge(dir string, fr *FnResult, timeout time.Duration, confirm bool, se
 	outs := make([]*goalOutcome, len(fr.Goals))
 	var wg sync.WaitGroup
 	declText := strings.Join(fr.Decls, "\n")
+	declNames := map[string]bool{}
+	for _, d := range fr.Decls {
+		f := strings.Fields(d)
+		if len(f) > 1 {
+			declNames[f[1]] = true
+		}
+	}
 	for i, g := range fr.Goals {
 		i, g := i, g
 		o := &goalOutcome{Goal: g}
@@ -207,6 +231,35 @@ func discharge(dir string, fr *FnResult, timeout time.Duration, confirm bool, se
 			if g.Expect == "sat" {
 				to = 5 * time.Second
 			}
+			if g.Expect == "unsat" {
+				// stage 0: relevance-pruned query (unsat there is unsat here)
+				for _, rounds := range []int{2} {
+					pl := pruneQuery(g.Prefix, g.Goal.S, rounds, declNames)
+					var pb strings.Builder
+					pb.WriteString(fr.Prelude)
+					pb.WriteString(declText)
+					pb.WriteString("\n")
+					for _, l := range pl {
+						pb.WriteString(l)
+						pb.WriteString("\n")
+					}
+					fmt.Fprintf(&pb, "(assert (not %s))\n(check-sat)\n", g.Goal.S)
+					pfile := strings.TrimSuffix(file, ".smt2") + fmt.Sprintf("_pruned%d.smt2", rounds)
+					os.WriteFile(pfile, []byte(pb.String()), 0o644)
+					ps, pout, psecs := runSolver(context.Background(), solvers[0], pfile, 2*time.Second)
+					if !keepAll {
+						os.Remove(pfile)
+					}
+					if ps == "unsat" {
+						o.Res = SolveResult{Status: "unsat", Solver: fmt.Sprintf("z3-new(pruned%d)", rounds), Seconds: psecs, Raw: map[string]string{"z3-new": trimOut(pout)}}
+						o.OK, o.Status = true, "discharged"
+						if !keepAll {
+							os.Remove(file)
+						}
+						return
+					}
+				}
+			}
 			o.Res = solve(file, to, confirm && g.Expect == "unsat")
 			switch {
 			case g.Expect == "unsat" && o.Res.Status == "unsat":
@@ -215,6 +268,31 @@ func discharge(dir string, fr *FnResult, timeout time.Duration, confirm bool, se
 				o.Status = "failed"
 			case g.Expect == "unsat":
 				o.Status = "unknown"
+				// candidate counterexample: drop quantified hypotheses (a
+				// weakening); a model of the relaxation is only a candidate
+				// and is confirmed or refuted by replay on the real code.
+				var rb strings.Builder
+				for _, l := range strings.Split(b.String(), "\n") {
+					if strings.Contains(l, "(forall ") || strings.Contains(l, "(exists ") {
+						if strings.HasPrefix(l, "(assert (not ") {
+							// the goal itself is quantified: keep (negated forall = exists)
+							rb.WriteString(l + "\n")
+						}
+						continue
+					}
+					rb.WriteString(l + "\n")
+				}
+				rfile := strings.TrimSuffix(file, ".smt2") + "_relaxed.smt2"
+				os.WriteFile(rfile, []byte(rb.String()), 0o644)
+				rs, rout, _ := runSolver(context.Background(), solvers[0], rfile, 5*time.Second)
+				if rs == "sat" {
+					o.Res.Model = rout
+					o.Res.Candidate = true
+					o.Res.Raw["relaxed(z3-new)"] = trimOut(rout)
+				}
+				if !keepAll {
+					os.Remove(rfile)
+				}
 			case g.Expect == "sat" && o.Res.Status == "unsat":
 				o.Status = "cover-vacuous"
 			default:
